@@ -327,3 +327,167 @@ Proof.
   change (@nil (string * string)) with (bindings [] []).
   rewrite point_num_trunc by auto. cbv zeta. rewrite ZA. reflexivity.
 Qed.
+
+(* ------------------------------------------------------------------ *)
+(* 4. gap (b): a truncated time with NO zone after "T"                 *)
+(*    (its leading "-" goes through the parser's rsplit heuristic)     *)
+(* ------------------------------------------------------------------ *)
+(* the text of a truncated time form: "-" or "--", then no further "-" *)
+Definition trunc_time_lead (ts : list ptok) : bool :=
+  match ts with
+  | PGrp _ l :: rest => (String.eqb l "-" || String.eqb l "--") && no_char "-" rest
+  | _ => false
+  end.
+Theorem tables_trunc_times :
+  forallb (fun f => not_trunc f || trunc_time_lead (f_parse f)) TIME_FORMS = true /\
+  forallb (fun f => match pmatch (f_parse f) "" [] with None => true | Some _ => false end &&
+                    match pmatch (f_parse f) "-" [] with None => true | Some _ => false end) TIME_FORMS = true.
+Proof. vm_compute. split; reflexivity. Qed.
+
+Lemma first_match_none_sub : forall (L : list form) s,
+  (forall f, In f L -> pmatch (f_parse f) s [] = None) -> first_match L s = None.
+Proof.
+  induction L as [|g L IH]; intros s H; [reflexivity|].
+  cbn [first_match]. rewrite (H g (or_introl eq_refl)). apply IH. intros f I. apply H. right. exact I.
+Qed.
+Lemma time_info_dash : forall cfg bf bt t0, t0 = "" \/ t0 = "-" -> get_time_info TIME_FORMS cfg t0 bf bt = None.
+Proof.
+  intros cfg bf bt t0 T. rewrite get_time_info_search. apply first_match_none_sub. intros f I.
+  apply time_search_In in I. destruct I as [I _].
+  destruct tables_trunc_times as (_ & S). rewrite forallb_forall in S. specialize (S f I).
+  apply andb_true_iff in S. destruct S as [S1 S2].
+  destruct T as [-> | ->].
+  - destruct (pmatch (f_parse f) "" []); [discriminate|reflexivity].
+  - destruct (pmatch (f_parse f) "-" []); [discriminate|reflexivity].
+Qed.
+
+Lemma split_tz_trunc : forall zfs cfg ts a bf bt,
+  trunc_time_lead ts = true -> wf_assign ts a = true ->
+  no_char "Z" ts = true -> no_char "+" ts = true ->
+  split_tz TIME_FORMS zfs cfg (render_toks ts a) bf bt = POk (render_toks ts a, None).
+Proof.
+  intros zfs cfg ts a bf bt L W NZ NP. unfold split_tz.
+  rewrite ends_with_Z_none by (apply render_no_char; assumption).
+  rewrite (render_no_char "+" ts a NP W).
+  destruct ts as [|t rest]; [discriminate L|]. destruct t as [l|nm n|nm|nm|nm l|nm]; try discriminate L.
+  cbn [trunc_time_lead] in L. apply andb_true_iff in L. destruct L as [L1 L2].
+  cbn [render_toks wf_assign] in *.
+  pose proof (render_no_char "-" rest a L2 W) as ND.
+  set (r := render_toks rest a) in *.
+  apply orb_true_iff in L1. destruct L1 as [E|E]; apply String.eqb_eq in E; subst l.
+  - change ("-" ++ r) with ("" ++ String "-" r).
+    rewrite contains_char_app. simpl contains_char at 2. rewrite orb_true_r.
+    rewrite rsplit_dash_app by assumption. rewrite time_info_dash by auto. reflexivity.
+  - change ("--" ++ r) with ("-" ++ String "-" r).
+    rewrite contains_char_app. simpl contains_char at 2. rewrite orb_true_r.
+    rewrite rsplit_dash_app by assumption. rewrite time_info_dash by auto. reflexivity.
+Qed.
+
+Theorem get_info_trunc_nozone : forall dfs zfs cfg fd gd ft ad atm,
+  date_ok dfs cfg fd = true -> hit (date_search dfs cfg ["reduced"]) fd = Some gd ->
+  time_ok TIME_FORMS cfg (bad_formats_of (f_format gd) (f_type gd)) (trunc_types fd) ft = true ->
+  trunc_time_lead (f_parse ft) = true ->
+  wf_assign (f_parse fd) ad = true -> wf_assign (f_parse ft) atm = true ->
+  get_info dfs TIME_FORMS zfs cfg (render_toks (f_parse fd) ad ++ "T" ++ render_toks (f_parse ft) atm) =
+  match process_zone cfg [] with
+  | POk z => POk (mkInfo (bindings (f_parse fd) ad) (bindings (f_parse ft) atm) z (f_expr fd ++ "T" ++ f_expr ft ++ ""))
+  | PErr x => PErr x
+  end.
+Proof.
+  intros dfs zfs cfg fd gd ft ad atm DO Hd TO TL Wd Wt. unfold date_ok, time_ok, trunc_types in *.
+  repeat match goal with X : _ && _ = true |- _ => apply andb_true_iff in X; destruct X end.
+  match goal with X : found (date_search _ _ _) fd = true |- _ =>
+    destruct (found_hit _ _ X) as [gd' [Hd' [Ed [Td _]]]] end.
+  rewrite Hd in Hd'. inversion Hd'; subst gd'. clear Hd'.
+  match goal with X : found (time_search _ _ _ _) ft = true |- _ =>
+    destruct (found_hit _ _ X) as [gt [Ht [Et _]]] end.
+  set (bf := bad_formats_of (f_format gd) (f_type gd)) in *.
+  assert (N : String.eqb (render_toks (f_parse fd) ad) "" && c_trunc cfg = false).
+  { match goal with X : negb (c_trunc cfg) || _ = true |- _ => apply orb_true_iff in X; destruct X as [NT|NL] end.
+    - apply negb_true_iff in NT. rewrite NT. apply andb_false_r.
+    - rewrite nonempty_lead_render by assumption. reflexivity. }
+  pose proof (date_part_hit dfs cfg fd gd ad Hd ltac:(assumption) Wd N) as DP.
+  assert (BT : bad_types_of (bindings (f_parse fd) ad) = if binds "truncated" (f_parse fd) then [] else ["truncated"]).
+  { unfold bad_types_of. rewrite has_key_bindings. reflexivity. }
+  set (bt := if binds "truncated" (f_parse fd) then [] else ["truncated"]) in *.
+  destruct (first_match_hit _ _ _ atm Ht ltac:(assumption) Wt) as [TM _].
+  rewrite <- get_time_info_search in TM.
+  set (d := render_toks (f_parse fd) ad) in *. set (t := render_toks (f_parse ft) atm) in *.
+  assert (CdT : contains_char "T" d = false) by (apply render_no_char; assumption).
+  assert (CtT : contains_char "T" t = false) by (apply render_no_char; assumption).
+  change ("T" ++ t) with (String "T" t).
+  rewrite <- Ed, <- Et.
+  erewrite get_info_parts; [| assumption | assumption | exact DP | rewrite BT; apply split_tz_trunc; assumption ].
+  rewrite BT. erewrite finish_none by eassumption. reflexivity.
+Qed.
+
+Lemma date_time_ok_tables : forall (cfg : pcfg) (fd gd ft : form),
+  In cfg all_cfgs ->
+  let dfs := date_forms_of (c_ned cfg) in
+  In fd (date_search dfs cfg ["reduced"]) -> hit (date_search dfs cfg ["reduced"]) fd = Some gd ->
+  In ft (time_search TIME_FORMS cfg (bad_formats_of (f_format gd) (f_type gd)) (trunc_types fd)) ->
+  date_ok dfs cfg fd = true /\
+  time_ok TIME_FORMS cfg (bad_formats_of (f_format gd) (f_type gd)) (trunc_types fd) ft = true.
+Proof.
+  intros cfg fd gd ft IC dfs ID H IT.
+  pose proof tables_triples as T. rewrite forallb_forall in T. specialize (T cfg IC).
+  unfold table_triples_ok in T. fold dfs in T. apply andb_true_iff in T. destruct T as [TD TT].
+  rewrite forallb_forall in TD. specialize (TD fd ID).
+  apply andb_true_iff in TD. destruct TD as [T1 _]. split; [exact T1|].
+  rewrite forallb_forall in TT. specialize (TT _ (bad_formats_of_choice (f_format gd) (f_type gd))).
+  rewrite forallb_forall in TT. specialize (TT _ (trunc_types_choice fd)).
+  rewrite forallb_forall in TT. specialize (TT ft IT). apply andb_true_iff in TT. tauto.
+Qed.
+
+Lemma date_ok_cfg : forall dfs cfg fd, date_ok dfs cfg fd = date_ok dfs (cfg_of (c_ned cfg) (c_trunc cfg) (c_basic cfg)) fd.
+Proof. destruct cfg; reflexivity. Qed.
+Lemma time_ok_cfg : forall tfs cfg bf bt ft, time_ok tfs cfg bf bt ft = time_ok tfs (cfg_of (c_ned cfg) (c_trunc cfg) (c_basic cfg)) bf bt ft.
+Proof. destruct cfg; reflexivity. Qed.
+
+Theorem decode_trunc_nozone : forall md cfg fd gd ft ad atm (asp : bool),
+  In (c_ned cfg) [0; 2; 3]%Z ->
+  let dfs := date_forms_of (c_ned cfg) in
+  In fd (date_search dfs cfg ["reduced"]) -> f_type fd = "truncated" ->
+  hit (date_search dfs cfg ["reduced"]) fd = Some gd ->
+  let bf := bad_formats_of (f_format gd) (f_type gd) in
+  In ft (time_search TIME_FORMS cfg bf (trunc_types fd)) -> f_type ft = "truncated" ->
+  wf_assign (f_parse fd) ad = true -> wf_assign (f_parse ft) atm = true ->
+  let p := t_point cfg (f_parse fd) (f_parse ft) None ad atm [] (if asp then f_expr fd ++ "T" ++ f_expr ft else "") in
+  parse_text md cfg (render_toks (f_parse fd) ad ++ "T" ++ render_toks (f_parse ft) atm) asp =
+  if t_zone_ok (t_zone cfg None []) && check_bounds md p then POk p else PErr EBadInput.
+Proof.
+  intros md cfg fd gd ft ad atm asp N dfs ID TY H bf IT TT Wd Wt p.
+  set (cfg' := cfg_of (c_ned cfg) (c_trunc cfg) (c_basic cfg)).
+  assert (IC : In cfg' all_cfgs) by (apply cfg_of_in; assumption).
+  assert (OKs : date_ok dfs cfg fd = true /\ time_ok TIME_FORMS cfg bf (trunc_types fd) ft = true).
+  { rewrite date_ok_cfg, time_ok_cfg. fold cfg'.
+    apply (date_time_ok_tables cfg' fd gd ft IC); unfold cfg'; cbn [c_ned cfg_of]; fold dfs.
+    - rewrite <- date_search_cfg. exact ID.
+    - rewrite <- date_search_cfg. exact H.
+    - fold bf. rewrite <- (time_search_cfg TIME_FORMS cfg). exact IT. }
+  destruct OKs as [DO TO].
+  assert (Sd : trunc_date_shape (f_parse fd) = true).
+  { apply (trunc_shape_tables (c_ned cfg)); [apply (date_search_In _ _ _ _ ID)|exact TY]. }
+  assert (IT' : In ft TIME_FORMS) by apply (time_search_In _ _ _ _ _ IT).
+  assert (St : time_any_shape (f_parse ft) = true) by (apply time_any_tables; exact IT').
+  assert (TL : trunc_time_lead (f_parse ft) = true).
+  { destruct tables_trunc_times as (S & _). rewrite forallb_forall in S. specialize (S ft IT').
+    unfold not_trunc in S. rewrite TT in S. exact S. }
+  destruct tables_num_keys as [K23 [K0 [KT KZ]]].
+  assert (Kd : num_keys_ok DATE_KEYS (f_parse fd) = true) by (apply trunc_num_keys; exact Sd).
+  assert (Kt : num_keys_ok TIME_KEYS (f_parse ft) = true) by (rewrite forallb_forall in KT; apply KT; exact IT').
+  (* parse_text = get_info then the constructor call on numbers *)
+  unfold parse_text.
+  assert (AS : is_ascii_str (render_toks (f_parse fd) ad ++ "T" ++ render_toks (f_parse ft) atm) = true).
+  { unfold date_ok, time_ok in DO, TO.
+    repeat match goal with X : _ && _ = true |- _ => apply andb_true_iff in X; destruct X end.
+    rewrite !is_ascii_app. rewrite !render_ascii by assumption. reflexivity. }
+  rewrite AS. cbn [negb]. fold dfs.
+  rewrite (get_info_trunc_nozone dfs ZONE_FORMS cfg fd gd ft ad atm DO H TO TL Wd Wt).
+  rewrite sapp_nil_r.
+  destruct (zone_num_opt cfg None [] eq_refl) as (zn & ZN & ZA). cbn [zo_bind] in ZN.
+  rewrite <- zone_num_ok in ZN by (intros k s _ L; discriminate).
+  destruct (process_zone cfg []) as [z|x]; [|discriminate ZN]. cbn [pbind] in ZN. cbn [i_expr].
+  rewrite create_timepoint_num; cbn [i_date i_time i_zone]; [|apply bindings_digit_env; assumption|apply bindings_digit_env; assumption].
+  rewrite ZN. cbn [pbind]. rewrite point_num_trunc by auto. cbv zeta. rewrite ZA. reflexivity.
+Qed.
